@@ -1,1 +1,205 @@
-From TM Require Import C15.Model.
+(* C15 — The consensus write-ahead log returns what was durably written, in order.
+   Only the property statements; each is closed by [exact] of a lemma of Proofs.v and followed
+   by Print Assumptions.  [crc] is an arbitrary checksum function with a four-byte result:
+   nothing is assumed about its strength — where it matters the conclusion carries the disjunct
+   [CrcCollision crc], built from the inputs of the theorem.  [valid] is the (opaque) success of
+   proto.Unmarshal + WALFromProto on the payload.  The decoder is the one with the F8 repair
+   (last argument [true] of decode1/decode_all). *)
+From Coq Require Import List ZArith NArith Bool Lia.
+From TM Require Import Common.Hex Generated.Consts C15.Crc32c C15.Model C15.Proofs.
+Import ListNotations.
+Open Scope Z_scope.
+
+(* Clause "in write order and byte-identical": whatever was framed by Encode is decoded back,
+   record for record, ending in a clean io.EOF — through the group reader and through the
+   plain file reader of repairWalFile. *)
+Theorem C15_roundtrip :
+  forall (crc : bytes -> bytes) (valid : bytes -> bool), (forall d, length (crc d) = 4%nat) ->
+  forall (kd : rkind) (rs : list bytes), Forall (okrec valid) rs ->
+    decode_all crc valid true kd (frames crc rs) = (rs, TEof).
+Proof. exact roundtrip. Qed.
+Print Assumptions C15_roundtrip.
+
+(* Frames are self-delimiting: the records of an intact prefix are returned first and in
+   order, whatever bytes follow (rotation boundaries, a torn record, damage). *)
+Theorem C15_prefix_records_first :
+  forall (crc : bytes -> bytes) (valid : bytes -> bool), (forall d, length (crc d) = 4%nat) ->
+  forall (kd : rkind) (rs : list bytes) (t : bytes), Forall (okrec valid) rs ->
+    decode_all crc valid true kd (frames crc rs ++ t) =
+      let '(l, tm) := decode_all crc valid true kd t in (rs ++ l, tm).
+Proof. exact decode_all_app. Qed.
+Print Assumptions C15_prefix_records_first.
+
+(* Clause "a crash that leaves a partial record at the end ... never returns a record that was
+   not written": for EVERY strict non-empty prefix of a frame appended to intact records the
+   reader returns exactly the intact records and then reports corruption (which makes OnStart
+   repair the file); a clean EOF is reported only when no byte of the next record is there.
+   No assumption on the checksum. *)
+Theorem C15_torn_tail_no_phantom :
+  forall (crc : bytes -> bytes) (valid : bytes -> bool), (forall d, length (crc d) = 4%nat) ->
+  forall (rs : list bytes) (r : bytes) (k : nat),
+    Forall (okrec valid) rs -> len r <= wal_max_msg_size_bytes ->
+    (k < length (frame crc r))%nat ->
+    decode_all crc valid true RGroup (frames crc rs ++ firstn k (frame crc r)) =
+      (rs, if Nat.eqb k 0 then TEof else TCorrupt).
+Proof. exact torn_tail_no_phantom. Qed.
+Print Assumptions C15_torn_tail_no_phantom.
+
+(* The same tail seen by repairWalFile (os.File semantics: short reads are not errors and the
+   buffer is zero-initialised): the repaired file holds the intact records, plus at most the
+   record that was being written (when exactly its trailing zero bytes were cut off) — or the
+   checksum collides. *)
+Theorem C15_repair_keeps_intact_records :
+  forall (crc : bytes -> bytes) (valid : bytes -> bool), (forall d, length (crc d) = 4%nat) ->
+  valid [] = false ->
+  forall (rs : list bytes) (r : bytes) (k : nat),
+    Forall (okrec valid) rs -> len r <= wal_max_msg_size_bytes ->
+    (k < length (frame crc r))%nat ->
+    let out := fst (decode_all crc valid true RPlain (frames crc rs ++ firstn k (frame crc r))) in
+    out = rs \/ out = rs ++ [r] \/ CrcCollision crc.
+Proof. exact repair_keeps_intact. Qed.
+Print Assumptions C15_repair_keeps_intact_records.
+
+(* Clause "single-byte corruptions": a record the group reader returns stands on disk behind
+   its own checksum and announced length ... *)
+Theorem C15_returned_record_is_checksummed :
+  forall (crc : bytes -> bytes) (valid : bytes -> bool) (s d rest : bytes),
+    decode1 crc valid true RGroup s = DRec d rest ->
+    exists l4, s = crc d ++ l4 ++ d ++ rest /\ length l4 = 4%nat /\
+               rd32 l4 = N.of_nat (length d) /\ valid d = true /\ (0 < length d)%nat.
+Proof. exact decode1_sound. Qed.
+Print Assumptions C15_returned_record_is_checksummed.
+
+(* ... so damage to the data of a frame (same length, any number of bytes) is reported as
+   corruption unless the checksum collides, and damage to the checksum field always is. *)
+Theorem C15_data_damage_detected :
+  forall (crc : bytes -> bytes) (valid : bytes -> bool), (forall d, length (crc d) = 4%nat) ->
+  forall (kd : rkind) (d0 d' t : bytes),
+    (0 < length d0)%nat -> len d0 <= wal_max_msg_size_bytes ->
+    length d' = length d0 -> d' <> d0 ->
+    decode1 crc valid true kd (crc d0 ++ be32 (N.of_nat (length d0)) ++ d' ++ t) = DCorrupt t
+    \/ CrcCollision crc.
+Proof. exact data_damage. Qed.
+Print Assumptions C15_data_damage_detected.
+
+Theorem C15_checksum_damage_detected :
+  forall (crc : bytes -> bytes) (valid : bytes -> bool) (kd : rkind) (c d t : bytes),
+    length c = 4%nat -> (0 < length d)%nat -> len d <= wal_max_msg_size_bytes -> c <> crc d ->
+    decode1 crc valid true kd (c ++ be32 (N.of_nat (length d)) ++ d ++ t) = DCorrupt t.
+Proof. exact crc_field_damage. Qed.
+Print Assumptions C15_checksum_damage_detected.
+
+(* Clause "the size limit may discard only whole oldest files": checkTotalSizeLimit drops at
+   most maxFilesToRemove files from the old end and touches neither the remaining files nor
+   the head; RotateFile moves the whole head (with what was buffered) behind the newest file. *)
+Theorem C15_prune_whole_oldest_files :
+  forall s : st, exists k : nat,
+    Z.of_nat k <= autofile_max_files_to_remove /\
+    files (check_total s) = skipn k (files s) /\
+    head (check_total s) = head s /\ buf (check_total s) = buf s /\
+    synced (check_total s) = synced s /\ gmax (check_total s) = gmax s.
+Proof. exact check_total_whole_oldest. Qed.
+Print Assumptions C15_prune_whole_oldest_files.
+
+Theorem C15_rotate_moves_whole_head :
+  forall s : st,
+    files (rotate s) = files s ++ [head s ++ buf s] /\ head (rotate s) = [] /\ buf (rotate s) = [].
+Proof. exact rotate_whole_head. Qed.
+Print Assumptions C15_rotate_moves_whole_head.
+
+(* ------------------------------------------------------------------ crash / reopen cycles
+   [Inv s fs hs hu]: the indexed files of state s are the frames of the record lists fs, the
+   head (file plus buffer) is the frames of hs ++ hu, and the synced prefix is exactly hs.
+   The write-side operations, rotation, both limit checks and crash(any offset)+repair are
+   modelled by [dstep]; [jstep] is the journal they must follow: a crash loses nothing but a
+   suffix of the records that were never covered by a sync. *)
+
+(* One cycle, EVERY truncation offset of the unsynced tail: after the crash and the repair the
+   reader returns all records of the files, all synced records of the head and a prefix of the
+   unsynced ones, in order, byte-identical, ending in a clean EOF; the invariant holds again. *)
+Theorem C15_crash_cycle_keeps_synced :
+  forall (crc : bytes -> bytes) (valid : bytes -> bool),
+  (forall d, length (crc d) = 4%nat) -> valid [] = false ->
+  forall (s : st) (fs : list (list bytes)) (hs hu : list bytes) (keep : Z),
+    Inv crc valid s fs hs hu ->
+    (exists kept lost, hu = kept ++ lost /\
+       Inv crc valid (crash_repair crc valid s keep) fs (hs ++ kept) [] /\
+       buf (crash_repair crc valid s keep) = [] /\
+       read_all crc valid true (crash_repair crc valid s keep) = (concat fs ++ hs ++ kept, TEof))
+    \/ CrcCollision crc.
+Proof. intros crc valid H1 H2. exact (crash_repair_cycle crc valid H1 H2). Qed.
+Print Assumptions C15_crash_cycle_keeps_synced.
+
+(* Any number of cycles interleaved with any writes, synced writes, flushes, rotations and limit
+   checks: the state always corresponds to a journal reached by [jsteps] — or the checksum
+   collides.  PARTIAL with respect to the property: the restart is crash + repairWalFile applied
+   unconditionally (on an intact head the repair is the identity, see C15_roundtrip); that
+   State.OnStart reaches the repair whenever the head ends in a torn record (catchupReplay finds
+   the marker, then hits the DataCorruptionError of C15_torn_tail_no_phantom) is checked on the
+   implementation by the harness monitors, not proved here.  Full statement intended:
+     forall ops over Model.op (incl. ORestart with the catch-up search), all restart statuses 0
+       -> exists j, jsteps j0 (erase ops) j /\ JInv (fst (run ... ops)) j  \/ CrcCollision. *)
+Theorem C15_durable_across_cycles_partial :
+  forall (crc : bytes -> bytes) (valid : bytes -> bool),
+  (forall d, length (crc d) = 4%nat) -> valid [] = false ->
+  forall (hl tl : Z) (ops : list dop), Forall (okop valid) ops ->
+    (exists j, jsteps (J [] [] []) ops j /\
+               JInv crc valid (fold_left (dstep crc valid) ops (init hl tl)) j)
+    \/ CrcCollision crc.
+Proof.
+  intros crc valid H1 H2 hl tl ops Hops.
+  exact (dsteps_refine crc valid H1 H2 ops (init hl tl) (J [] [] []) (init_inv crc valid hl tl) Hops).
+Qed.
+Print Assumptions C15_durable_across_cycles_partial.
+
+(* What the journal allows: per step the durable part (files + synced records of the head) can
+   only lose at most maxFilesToRemove whole oldest files, grow at the end, or get a new empty
+   last segment. *)
+Theorem C15_journal_step_durable :
+  forall (j : jst) (o : dop) (j' : jst), jstep j o j' ->
+  exists (k : nat) (add : list bytes), Z.of_nat k <= autofile_max_files_to_remove /\
+    (jf j' ++ [js j'] = skipn k (jf j) ++ [js j ++ add] \/
+     jf j' ++ [js j'] = skipn k (jf j) ++ [js j ++ add; []]).
+Proof. exact journal_step_durable. Qed.
+Print Assumptions C15_journal_step_durable.
+
+(* ... and a reader over a state that corresponds to a journal (buffer flushed) returns exactly
+   the journal, in order, ending in EOF. *)
+Theorem C15_reader_returns_journal :
+  forall (crc : bytes -> bytes) (valid : bytes -> bool), (forall d, length (crc d) = 4%nat) ->
+  forall (s : st) (fs : list (list bytes)) (hs hu : list bytes),
+    Inv crc valid s fs hs hu -> buf s = [] ->
+    read_all crc valid true s = (concat fs ++ hs ++ hu, TEof).
+Proof. intros crc valid H1. exact (inv_read_all crc valid H1). Qed.
+Print Assumptions C15_reader_returns_journal.
+
+(* ---- non-vacuity and the F8 witness, on concrete data with the real CRC-32C ---- *)
+Definition ex_r1 : bytes := [10; 2; 8; 1; 18; 4; 26; 2; 8; 1]%N.
+Definition ex_r2 : bytes := [10; 2; 8; 2; 18; 6; 34; 4; 8; 7; 16; 0]%N.
+Definition vtrue (d : bytes) : bool := negb (Nat.eqb (length d) 0).
+
+Example C15_roundtrip_nonvacuous :
+  Forall (okrec vtrue) [ex_r1; ex_r2] /\
+  decode_all crc32c_be vtrue true RGroup (frames crc32c_be [ex_r1; ex_r2]) = ([ex_r1; ex_r2], TEof).
+Proof.
+  split; [|vm_compute; reflexivity].
+  repeat constructor; unfold len, wal_max_msg_size_bytes; cbn; lia.
+Qed.
+
+(* F8: two bytes of the next record after an intact one.  The decoder before the repair reports
+   a clean EOF (so OnStart does not repair and later frames are appended behind the two bytes);
+   the repaired decoder reports corruption. *)
+Example C15_torn_checksum_F8 :
+  let s := frames crc32c_be [ex_r1] ++ firstn 2 (frame crc32c_be ex_r2) in
+  decode_all crc32c_be vtrue false RGroup s = ([ex_r1], TEof) /\
+  decode_all crc32c_be vtrue true RGroup s = ([ex_r1], TCorrupt) /\
+  (* unrepaired, with a later acknowledged record appended: that record is unreadable *)
+  decode_all crc32c_be vtrue false RGroup (s ++ frame crc32c_be ex_r2) = ([ex_r1], TCorrupt).
+Proof. vm_compute. repeat split; reflexivity. Qed.
+
+(* a cycle on a concrete state: two synced and one unsynced record, crash 3 bytes into it *)
+Example C15_cycle_nonvacuous :
+  let s0 := init 0 0 in
+  let s1 := fold_left (dstep crc32c_be vtrue) [DWriteSync ex_r1; DWriteSync ex_r2; DWrite ex_r1; DCrash 3] s0 in
+  read_all crc32c_be vtrue true s1 = ([ex_r1; ex_r2], TEof).
+Proof. vm_compute. reflexivity. Qed.
